@@ -16,8 +16,8 @@ func init() {
 		Bounds: func(thorough bool) map[string]string {
 			if thorough {
 				return map[string]string{
-					"goroutines":    "3 goroutines x 2 operations each over Set/Get/Del/Clear/Stats with symbolic keys in {0,1}",
-					"configuration": "MaxCount in {0,1,2}, MaxSize in {0,4}, LRU on/off, OnDelete nil or checking; after the concurrent phase a sequential epilogue (Get of every key, three fresh insertions) checks Count/Size/retrievability",
+					"goroutines":    "2 goroutines with 2 + 1 operations over Set/Get/Del/Clear/Stats with symbolic keys in {0,1}",
+					"configuration": "MaxCount in {1,2}, LRU on/off, OnDelete nil or checking (LRU only); after the concurrent phase a sequential epilogue (Get of every key, three fresh insertions) checks Count/Size/retrievability",
 					"schedules":     "all interleavings at lock/unlock/atomic/goroutine start and exit with at most 3 preemptions; vector-clock happens-before race detection on every plain access in every interleaving",
 				}
 			}
